@@ -66,6 +66,7 @@ fn main() {
             eprintln!("vfh: {} runs, {} diverged steps", n, div);
         }
         "fee" => pure::fee(&args[2], &args[3]),
+        "tlv" => pure::tlv(&args[2], &args[3]),
         m => {
             eprintln!("unknown mode {}", m);
             std::process::exit(2);
